@@ -370,3 +370,58 @@ func InstrsDeep(fn *ssa.Function, f func(*ssa.Function, ssa.Instruction)) {
 		InstrsDeep(a, f)
 	}
 }
+
+// Ret is a return instruction with results resolved through the spill slots
+// go/ssa uses in functions that contain defer.
+type Ret struct {
+	Instr   *ssa.Return
+	Results []ssa.Value
+}
+
+// Returns lists the normal returns of fn (the synthetic recover block is skipped).
+func Returns(fn *ssa.Function) []Ret {
+	var out []Ret
+	for _, b := range fn.Blocks {
+		if b == fn.Recover {
+			continue
+		}
+		if len(b.Instrs) == 0 {
+			continue
+		}
+		r, ok := b.Instrs[len(b.Instrs)-1].(*ssa.Return)
+		if !ok {
+			continue
+		}
+		rs := make([]ssa.Value, len(r.Results))
+		for i, v := range r.Results {
+			rs[i] = v
+			if u, ok := v.(*ssa.UnOp); ok {
+				if al, ok := u.X.(*ssa.Alloc); ok {
+					// last store to the slot before the return, walking back through
+					// single-predecessor blocks
+					if sv := lastStore(b, len(b.Instrs)-1, al); sv != nil {
+						rs[i] = sv
+					}
+				}
+			}
+		}
+		out = append(out, Ret{r, rs})
+	}
+	return out
+}
+
+func lastStore(b *ssa.BasicBlock, from int, al *ssa.Alloc) ssa.Value {
+	for hops := 0; hops < 6 && b != nil; hops++ {
+		for i := from - 1; i >= 0; i-- {
+			if st, ok := b.Instrs[i].(*ssa.Store); ok && st.Addr == al {
+				return st.Val
+			}
+		}
+		if len(b.Preds) != 1 {
+			return nil
+		}
+		b = b.Preds[0]
+		from = len(b.Instrs)
+	}
+	return nil
+}
